@@ -354,9 +354,22 @@ def gen_case(rng, kinds=None):
             objs.append(gen_function(rng))
         elif kind == "hist":
             objs.append(gen_hist(rng))
+        elif rng.random() < 0.15:
+            # Plot.fit applied to a histogram: the bin centres / counts are fitted
+            h = gen_hist(rng)
+            nb = (len(h["bins"]) - 1) if isinstance(h["bins"], list) else h["bins"]
+            objs.append(h)
+            if nb >= 5:
+                model = rng.choice(["linear", "quadratic", "polynomial"])
+                deg = 3 if model == "polynomial" else None
+                if model == "polynomial" and nb < 7:
+                    model, deg = "linear", None
+                objs.append({"t": "fit", "via": "plot.fit", "model": model, "degrees": deg,
+                             "parguess": None, "range": None, "data": None, "label": "",
+                             "k": {"linear": 2, "quadratic": 3}.get(model, 4),
+                             "target": len(objs) - 1, "on": "hist"})
+            have_target = True
         else:
-            if have_target and rng.random() < 0.0:
-                pass
             f = gen_fit(rng, rng.choice(["plot.fit", "plot(result)"]))
             if f["via"] == "plot.fit":
                 # Plot.fit fits the last data set on the plot: add the data set, then the fit
@@ -766,8 +779,9 @@ def describe(case):
                 "edges[{}]".format(len(o["bins"])), o["range"]))
         else:
             parts.append("fit({}, {}, range={}, via {})".format(
-                o["model"], "deg={}".format(o["degrees"]) if o["degrees"] else "n={}".format(
-                    len(o["data"]["xs"])), o["range"], o["via"]))
+                o["model"], "deg={}".format(o["degrees"]) if o["degrees"] else (
+                    "n={}".format(len(o["data"]["xs"])) if o["data"] else "of the histogram"),
+                o["range"], o["via"]))
     return "{} | errorBars={} residuals={} legend={} over={} xrange={}".format(
         "; ".join(parts), case["errorBars"], case["residuals"], case["legend"],
         {k: v for k, v in case["over"].items() if v}, case["xrange"])
